@@ -53,6 +53,17 @@ theorem exact_buffer_is_the_message (back : Bytes) (chunks : List Bytes)
     encodeObjectM back back.length chunks = (back.length, true, chunks.flatten) := by
   rw [encodeObject_fits back back.length chunks (by omega), ← hlen, List.drop_length, List.append_nil]
 
+/-- the two halves together: a buffer of `EncodedSize(v)` bytes, whatever it held and however the encoder
+    cuts its output, comes back as n = EncodedSize(v) and exactly the encoding of v -/
+theorem sized_buffer_receives_the_encoding (S : Schema) (hS : S.ok = true) (sid : Nat) (v : Val)
+    (ht : hasTy S (.strct sid) v = true) (back : Bytes) (chunks : List Bytes)
+    (hch : chunks.flatten = appendM Generated.params S sid v)
+    (hlen : back.length = sizeM Generated.params S sid v) :
+    encodeObjectM back back.length chunks =
+      (sizeM Generated.params S sid v, true, appendM Generated.params S sid v) := by
+  rw [size_exact S hS sid v ht, ← hch] at hlen
+  rw [exact_buffer_is_the_message back chunks hlen, hlen, size_exact S hS sid v ht, hch]
+
 /-- frugal.go really is `Append(buf[:0:len(buf)], v)` + `len(ret) > len(buf)` (regenerated fact) -/
 theorem code_follows_buffer_model : Generated.facts.bufferContract = true := Instances.facts_bufferContract
 
